@@ -8,6 +8,7 @@ package dnssec
 
 import (
 	"fmt"
+	"net"
 	"sort"
 	"strings"
 	"testing"
@@ -147,6 +148,20 @@ func TestVerifC02NSEC(t *testing.T) {
 		}
 		qtype := rapid.SampledFrom([]uint16{dns.TypeA, dns.TypeA, dns.TypeAAAA, dns.TypeTXT, dns.TypeCNAME, dns.TypeNS, dns.TypeDS, dns.TypeMX, dns.TypeSOA, dns.TypeDNAME}).Draw(rt, "qtype")
 		q := dns.Question{Name: qname, Qtype: qtype, Qclass: dns.ClassINET}
+		// the zone is class IN. One case in eight the question is asked in class CH, or the records given are a
+		// class-CH copy of the chain: then nothing in the set speaks about the question's class
+		foreignClass := ""
+		switch rapid.IntRange(0, 15).Draw(rt, "classmix") {
+		case 0:
+			q.Qclass, foreignClass = dns.ClassCHAOS, "question in class CH, records in class IN"
+		case 1:
+			for i, rr := range set {
+				c := dns.Copy(rr)
+				c.Header().Class = dns.ClassCHAOS
+				set[i] = c
+			}
+			foreignClass = "question in class IN, records in class CH"
+		}
 		msg := &dns.Msg{Question: []dns.Question{q}}
 		// exactly what Resolver.authority does before calling the verifiers
 		filtered := dnsutil.FilterRRsToZone(set, z.Apex)
@@ -193,6 +208,10 @@ func TestVerifC02NSEC(t *testing.T) {
 				accepted = true
 				vfstat.Class(U, "accepted:"+v.claimed)
 			}
+			if v.accept && foreignClass != "" && v.fn != "VerifyDelegationNSEC" {
+				// (VerifyDelegationNSEC takes no question: its caller asks DS in class IN by construction)
+				rt.Fatalf("%s accepted %s for %s/%s from records of another class (%s)\n  %s", v.fn, v.claimed, qname, dns.TypeToString[qtype], foreignClass, z.Describe())
+			}
 			// the delegation claim is about the (lower-cased) name itself
 			if bad := vfC02Judge(z, lq, qtype, v, false); bad != "" {
 				var recs []string
@@ -214,6 +233,9 @@ func TestVerifC02NSEC(t *testing.T) {
 		vfstat.Class(U, "truth:"+cls)
 		if polluted {
 			vfstat.Class(U, "polluted")
+		}
+		if foreignClass != "" {
+			vfstat.Class(U, "foreign-class")
 		}
 		if len(filtered) < len(chain) {
 			vfstat.Class(U, "partial-chain")
@@ -588,4 +610,110 @@ func TestVerifC02Exhaustive(t *testing.T) {
 	vfstat.NonTrivial(U, fmt.Sprint("zones", zonesSeen))
 	vfstat.NonTrivial(U, fmt.Sprint("accepted", accepted))
 	vfstat.Sample(U, "summary", map[string]any{"zones_enumerated": zonesSeen, "verifier_calls": cases, "accepted": accepted})
+}
+
+// TestVerifC02Wildcard: a wildcard-expanded positive answer is accepted only for a name the wildcard really is the
+// closest match of. A zone is generated (asterisk labels anywhere, so that empty non-terminals occur at and around
+// wildcards), one of its wildcard RRsets is "expanded" over a generated name below the wildcard's parent - the RRSIG
+// Labels field says which wildcard - and handed to VerifyWildcardAnswerForZoneWithWork with a generated subset of the
+// zone's genuine NSEC or NSEC3 chain in the authority section, which is all a replaying attacker has. Acceptance with
+// secure=true is right only if the zone itself would answer that name from that very wildcard.
+func TestVerifC02Wildcard(t *testing.T) {
+	defer vfstat.Flush()
+	vfstat.Quiet()
+	const U = "C02.wildcard"
+	rapid.Check(t, func(rt *rapid.T) {
+		apex := rapid.SampledFrom([]string{"example.", "example.", "test.", "sub.example."}).Draw(rt, "apex")
+		alphabet := []string{"a", "b", "c", "*", "*", "x", "ab"}
+		z := vfmodel.GenZone(rt, apex, 7, alphabet)
+		var wilds []string
+		for _, o := range z.ChainOwners() {
+			if strings.HasPrefix(o, "*.") && !z.Owners[o][dns.TypeCNAME] {
+				wilds = append(wilds, o)
+			}
+		}
+		if len(wilds) == 0 {
+			// no wildcard in this zone: plant one at the apex so that the case still says something
+			z.Owners["*."+z.Apex] = map[uint16]bool{dns.TypeA: true}
+			wilds = append(wilds, "*."+z.Apex)
+		}
+		sort.Strings(wilds)
+		wc := rapid.SampledFrom(wilds).Draw(rt, "wildcard")
+		ce := wc[2:]
+		var types []uint16
+		for ty := range z.Owners[wc] {
+			types = append(types, ty)
+		}
+		sort.Slice(types, func(i, j int) bool { return types[i] < types[j] })
+		qtype := rapid.SampledFrom(types).Draw(rt, "type")
+		lab := func(l string) string {
+			v := rapid.SampledFrom([]string{"a", "b", "c", "x", "ab", "w", "*"}).Draw(rt, l)
+			return v
+		}
+		qname := lab("l1") + "." + ce
+		if rapid.IntRange(0, 2).Draw(rt, "deep") == 0 {
+			qname = lab("l2") + "." + qname
+		}
+		if qname == wc {
+			qname = "w." + ce
+		}
+		useNSEC3 := rapid.Bool().Draw(rt, "nsec3")
+		resp := new(dns.Msg)
+		resp.SetQuestion(qname, qtype)
+		resp.Response = true
+		hdr := dns.RR_Header{Name: qname, Rrtype: qtype, Class: dns.ClassINET, Ttl: 300}
+		switch qtype {
+		case dns.TypeA:
+			resp.Answer = append(resp.Answer, &dns.A{Hdr: hdr, A: net.IPv4(192, 0, 2, 1).To4()})
+		case dns.TypeAAAA:
+			resp.Answer = append(resp.Answer, &dns.AAAA{Hdr: hdr, AAAA: net.ParseIP("2001:db8::1")})
+		case dns.TypeTXT:
+			resp.Answer = append(resp.Answer, &dns.TXT{Hdr: hdr, Txt: []string{"w"}})
+		case dns.TypeMX:
+			resp.Answer = append(resp.Answer, &dns.MX{Hdr: hdr, Preference: 1, Mx: "mx." + z.Apex})
+		default:
+			rt.Skip("type without a builder")
+		}
+		resp.Answer = append(resp.Answer, &dns.RRSIG{Hdr: dns.RR_Header{Name: qname, Rrtype: dns.TypeRRSIG, Class: dns.ClassINET, Ttl: 300}, TypeCovered: qtype, Algorithm: 13,
+			Labels: uint8(dns.CountLabel(ce)), OrigTtl: 300, Expiration: 2000000000, Inception: 1000000000, KeyTag: 1, SignerName: z.Apex, Signature: "AAAA"})
+		if useNSEC3 {
+			resp.Ns = vfC02Subset(rt, z.NSEC3Chain(3600), "chain3")
+		} else {
+			resp.Ns = vfC02Subset(rt, z.NSECChain(3600), "chain")
+		}
+		secure, err := VerifyWildcardAnswerForZoneWithWork(resp, z.Apex, nil)
+		tr := z.Truth(qname, qtype)
+		right := tr.Kind == "answer" && tr.Wildcard && tr.Source == wc
+		vfstat.Eval(U, 1)
+		vfstat.Class(U, "truth:"+tr.Kind)
+		if useNSEC3 {
+			vfstat.Class(U, "nsec3")
+		}
+		if err == nil {
+			vfstat.Class(U, "accepted")
+			if right {
+				vfstat.Class(U, "accepted-genuine-expansion")
+			}
+			if !secure {
+				vfstat.Class(U, "accepted-insecure-opt-out")
+			}
+		} else if right {
+			vfstat.Class(U, "rejected-genuine-expansion-with-partial-proof")
+		}
+		if err == nil && (secure || !(useNSEC3 && z.OptOut)) && !right {
+			var recs []string
+			for _, rr := range resp.Ns {
+				if n, ok := rr.(*dns.NSEC); ok {
+					recs = append(recs, fmt.Sprintf("%s->%s{%s}", n.Hdr.Name, n.NextDomain, vfC02TypesOf(n.TypeBitMap)))
+				} else {
+					recs = append(recs, rr.Header().Name)
+				}
+			}
+			rt.Fatalf("VerifyWildcardAnswerForZoneWithWork accepted (secure=%v) the RRset of %s expanded over %s/%s, but the zone says %+v\n  %s\n  authority records given: %v", secure, wc, qname, dns.TypeToString[qtype], tr, z.Describe(), recs)
+		}
+		if err == nil || right {
+			vfstat.NonTrivial(U, fmt.Sprint(z.Describe(), wc, qname, qtype, useNSEC3, len(resp.Ns)))
+			vfstat.Sample(U, fmt.Sprint(err == nil, right), map[string]any{"zone": z.Describe(), "wildcard": wc, "qname": qname, "truth": fmt.Sprintf("%+v", tr), "accepted": err == nil, "secure": secure, "authority_records": len(resp.Ns)})
+		}
+	})
 }
